@@ -54,7 +54,10 @@ JudgePost(P, Q, grow, T, D, set, r) ==
     Flatten([c \in 1..4 |-> JudgeList(c, P, Q, grow, T, D, set)])
     \o JudgeDist(Q, T, D, set)
     \o (IF Len(T) > 0 /\ Q.rooting # r THEN V("C06.RootingKept", Shape(P) \o "->" \o Shape(Q)) ELSE None)
-    \o (IF Len(T) > 0 /\ Q.set # set THEN V("C06.SettingsKept", "settings") ELSE None)
+    \* the settings of the sample, also on an (empty) result and in the embedded distribution, which decides what is
+    \* collected from trees added later
+    \o (IF Q.set # set THEN V("C06.SettingsKept", "settings-of-the-collection") ELSE None)
+    \o (IF Q.dset.iel # set.iel \/ Q.dset.ina # set.ina THEN V("C06.SettingsKept", "settings-of-the-embedded-distribution") ELSE None)
 
 \* per-split summaries the summariser wrote on a tree (length_mean / length_median / length_range on the edges, age_* on
 \* the nodes) against the bag of values of that split: logged per node as <<present, mean, median, lo, hi>>, values * LScale
@@ -78,6 +81,7 @@ RatOk(v) == v[3] /\ v[2] > 0
 \* T: ids of the trees the array holds, entry by entry; P: its projection; e: record with cons, scores, mcct, topo;
 \* ref: consensus of the reference array filled one tree at a time (compared when the array holds the whole sample)
 JudgeQueries(T, D, set, r, P, e, ref) ==
+    IF Len(T) = 0 THEN None ELSE        \* nothing to summarise
     LET d == TLCEval(SummaryOfBag(T, D, set))
         short == IF P.n[3] < P.n[1] THEN ":leafset-list-shorter-than-split-list" ELSE ""
         Work(name, q) == IF q.raised # "" THEN V("C06.PerTreeQueriesWork", name \o ":" \o q.raised \o short) ELSE None
